@@ -1,5 +1,5 @@
 (* C14, normal paths: the text of a path made of a root and child / index fragments (the paths
-   Locate and Walk hand out) reads back as the same path. Printer: Expr.Append with Child.Append
+   Locate and Walk hand out), wildcards and descents reads back as the same path. Printer: Expr.Append with Child.Append
    (dot form when every byte is a token byte of the GENERATED jp_tokenMap, else the bracketed
    string literal of jp.AppendString) and Nth.Append. Parser: readExpr / nextFrag / afterDot /
    afterBracket / readInt / readStr restricted to these fragments. Both are extracted and compared
@@ -9,7 +9,8 @@ Require Import Ojg.Base.Bytes Ojg.Base.Utf8 Ojg.Gen.StrMaps Ojg.Json.Writer Ojg.
 Import ListNotations.
 Open Scope Z_scope.
 
-Inductive nfrag : Set := NChild (k : bytes) | NNth (i : Z).
+(* NWild true is the wildcard written dot-star, NWild false the one written as a bracketed star *)
+Inductive nfrag : Set := NChild (k : bytes) | NNth (i : Z) | NWild (star : bool) | NDescent.
 
 (* ---- printer *)
 Definition tok_byte (b : byte) : bool := negb (beqb (jp_tokenMap b) x2e).
@@ -20,8 +21,26 @@ Definition print_frag (f : nfrag) : bytes :=
   match f with
   | NChild k => if token_ok k then x2e :: k else x5b :: x27 :: enc_body_u (length k) k ++ [x27; x5d]
   | NNth i => x5b :: format_int i ++ [x5d]
+  | NWild true => [x2e; x2a]
+  | NWild false => [x5b; x2a; x5d]
+  | NDescent => []     (* written by print_frags, which looks at the next fragment *)
   end.
-Definition print_path (fs : list nfrag) : bytes := x24 :: flat_map print_frag fs.
+
+(* Expr.Append: a descent is two dots; the second one is written by the next fragment when that
+   is a token child or a '*' wildcard *)
+Definition second_dot (r : list nfrag) : bool :=
+  match r with
+  | NChild k :: _ => negb (token_ok k)
+  | NWild star :: _ => negb star
+  | _ => true
+  end.
+Fixpoint print_frags (fs : list nfrag) : bytes :=
+  match fs with
+  | [] => []
+  | NDescent :: r => x2e :: (if second_dot r then [x2e] else []) ++ print_frags r
+  | f :: r => print_frag f ++ print_frags r
+  end.
+Definition print_path (fs : list nfrag) : bytes := x24 :: print_frags fs.
 
 (* ---- parser *)
 Fixpoint skip_space (w : bytes) : bytes :=
@@ -42,7 +61,8 @@ Fixpoint read_digits (acc : Z) (w : bytes) : Z * bytes :=
 Definition cons_opt (f : nfrag) (r : option (list nfrag)) : option (list nfrag) :=
   match r with Some l => Some (f :: l) | None => None end.
 
-Fixpoint parse_frags (fuel : nat) (w : bytes) : option (list nfrag) :=
+(* [ld]: the previous fragment was a descent (lastDescent in readExpr) *)
+Fixpoint parse_frags (fuel : nat) (ld : bool) (w : bytes) : option (list nfrag) :=
   match fuel with
   | O => None
   | S f =>
@@ -53,19 +73,26 @@ Fixpoint parse_frags (fuel : nat) (w : bytes) : option (list nfrag) :=
         match r with
         | [] => None
         | c :: r' =>
-            if beqb c x2a || beqb c x2e then None          (* wildcard, descent: outside this model *)
+            if beqb c x2a then cons_opt (NWild true) (parse_frags f false r')
+            else if beqb c x2e then cons_opt NDescent (parse_frags f true r')
             else if negb (tok_byte c) then None
-            else let '(t, k) := span_token r' in cons_opt (NChild (c :: t)) (parse_frags f k)
+            else let '(t, k) := span_token r' in cons_opt (NChild (c :: t)) (parse_frags f false k)
         end
+      else if beqb b x2a then cons_opt (NWild true) (parse_frags f false r)
       else if beqb b x5b then                              (* afterBracket *)
         match skip_space r with
         | [] => None
         | q :: r' =>
-            if beqb q x27 || beqb q x22 then
+            if beqb q x2a then
+              match skip_space r' with
+              | e :: r3 => if beqb e x5d then cons_opt (NWild false) (parse_frags f false r3) else None
+              | [] => None
+              end
+            else if beqb q x27 || beqb q x22 then
               match read_str q r' with
               | Some (s, r2) =>
                   match skip_space r2 with
-                  | e :: r3 => if beqb e x5d then cons_opt (NChild s) (parse_frags f r3) else None
+                  | e :: r3 => if beqb e x5d then cons_opt (NChild s) (parse_frags f false r3) else None
                   | [] => None
                   end
               | None => None
@@ -78,20 +105,22 @@ Fixpoint parse_frags (fuel : nat) (w : bytes) : option (list nfrag) :=
                   if is_digit d then
                     let '(v, r2) := read_digits 0 ds in
                     match skip_space r2 with
-                    | e :: r3 => if beqb e x5d then cons_opt (NNth (if neg then - v else v)) (parse_frags f r3) else None
+                    | e :: r3 => if beqb e x5d then cons_opt (NNth (if neg then - v else v)) (parse_frags f false r3) else None
                     | [] => None
                     end
                   else None
               | [] => None
               end
         end
+      else if tok_byte b && ld then                        (* afterDotDot *)
+        let '(t, k) := span_token r in cons_opt (NChild (b :: t)) (parse_frags f false k)
       else None
     end
   end.
 
 Definition parse_path (w : bytes) : option (list nfrag) :=
   match w with
-  | b :: r => if beqb b x24 then parse_frags (S (length r)) r else None
+  | b :: r => if beqb b x24 then parse_frags (S (length r)) false r else None
   | [] => None
   end.
 
@@ -99,7 +128,7 @@ Definition parse_path (w : bytes) : option (list nfrag) :=
 Definition norm_frag (f : nfrag) : nfrag :=
   match f with
   | NChild k => if token_ok k then NChild k else NChild (sanitize k)
-  | NNth i => NNth i
+  | _ => f
   end.
 
 (* ---- printable forms for the correspondence run:  c<hex> | i<int>, space separated *)
@@ -107,6 +136,9 @@ Definition show_frag (f : nfrag) : bytes :=
   match f with
   | NChild k => x63 :: Jv.hex_of_bytes k
   | NNth i => x69 :: format_int i
+  | NWild true => [x77; x2a]
+  | NWild false => [x77; x23]
+  | NDescent => [x64]
   end.
 Fixpoint show_frags (fs : list nfrag) : bytes :=
   match fs with [] => [] | [f] => show_frag f | f :: r => show_frag f ++ x20 :: show_frags r end.
